@@ -1142,18 +1142,42 @@ COMPLEX_LIGANDS = {
 COMPLEX_NAMINGS = ("water-like", "elem-index", "private")
 EXTRAS = ("W1", "W3", "XYZ", "XYQ", "ZN")
 LIG_SEQ = 101
+# hetero groups the bundled force fields carry their own entries for
+FF_HETERO_ENTRIES = (("CHARMM", "ADP"), ("CHARMM", "NAD"), ("AMBER", "NME"))
 
 
-def _kind(res_name):
+def _kind(res_name, lig_res="LIG"):
     if res_name in ("HOH", "WAT"):
         return "water"
     if res_name in ("XYZ", "XYQ", "QQQ"):
         return "foreign-hetero-group"
     if res_name == "ZN":
         return "ion"
-    if res_name == "LIG":
+    if res_name == lig_res:
         return "ligand"
     return "protein"
+
+
+def entry_names(mol, ff, entry):
+    """Atom names taken, element by element, from the force field's own
+    entry for a hetero group (the ligand is then named like a residue the
+    force field knows)."""
+    import re
+
+    dat = (engine.REPO / "pdb2pqr" / "dat" / f"{ff}.DAT").read_text()
+    pool = {}
+    for line in dat.splitlines():
+        w = line.split()
+        if len(w) >= 4 and w[0] == entry:
+            el = re.match(r"[A-Z]", w[1])
+            if el:
+                pool.setdefault(el.group(0), []).append(w[1])
+    names = []
+    for i, t in enumerate(mol.types):
+        e = element(t)[0]
+        # elements the entry has run out of get a private name
+        names.append(pool[e].pop(0) if pool.get(e) else f"{e}Z{i}")
+    return names
 
 
 _PEPTIDE = None
@@ -1170,7 +1194,8 @@ def _peptide_lines():
     return list(_PEPTIDE)
 
 
-def complex_pdb(mol, names, extras, with_ligand=True):
+def complex_pdb(mol, names, extras, with_ligand=True, lig_res="LIG",
+                copies=1):
     """PDB text and the list of hetero atoms written (res_name, seq, name)."""
     from ..pdbfmt import atom_line
 
@@ -1181,16 +1206,18 @@ def complex_pdb(mol, names, extras, with_ligand=True):
     cz = sum(c[2] for c in mol.coords) / mol.n
     shift = (15.0 - cx, 15.0 - cy, 15.0 - cz)
 
-    def het(name, res, seq, xyz, el):
+    def het(name, res, seq, xyz, el, chain="A"):
         nonlocal serial
         serial += 1
-        lines.append(atom_line(serial, name, res, "A", seq, *xyz,
+        lines.append(atom_line(serial, name, res, chain, seq, *xyz,
                                record="HETATM", element=el.upper()))
 
     if with_ligand:
-        for i in range(mol.n):
-            x, y, z = (mol.coords[i][k] + shift[k] for k in range(3))
-            het(names[i], "LIG", LIG_SEQ, (x, y, z), element(mol.types[i]))
+        for c in range(copies):  # further copies: next number, chain B
+            for i in range(mol.n):
+                x, y, z = (mol.coords[i][k] + shift[k] for k in range(3))
+                het(names[i], lig_res, LIG_SEQ + c, (x, y + 25.0 * c, z),
+                    element(mol.types[i]), chain="A" if c == 0 else "B")
     heavy = [i for i in range(mol.n) if mol.types[i] != "H"]
     if "W1" in extras:
         het("O", "HOH", 201, (-12.0, 14.0, 3.0), "O")
@@ -1230,6 +1257,9 @@ def check_complex_cell(case, rec):
     extras = list(case["extras"])
     ff = case["ff"]
     opts = [f"--ff={ff}"]
+    lig_res = case.get("lig_resname", "LIG")
+    copies = case.get("copies", 1)
+    lig_seqs = {LIG_SEQ + c for c in range(copies)}
     # reference: same hetero groups, no ligand, no --ligand option
     ref_cache = {}
 
@@ -1256,15 +1286,19 @@ def check_complex_cell(case, rec):
         mol = load_mol(spec)
         ident = tuple(range(mol.n))
         for naming in case["namings"]:
-            names = make_names(mol, naming)
+            if naming.startswith("ff-entry:"):
+                names = entry_names(mol, ff, naming.split(":", 1)[1])
+            else:
+                names = make_names(mol, naming)
             one = {"mode": "complex", "ff": ff, "extras": extras,
                    "ligands": [lig], "namings": [naming]}
-            if "mol2_resname" in case:
-                one["mol2_resname"] = case["mol2_resname"]
+            for k in ("mol2_resname", "lig_resname", "copies"):
+                if k in case:
+                    one[k] = case[k]
             tag = f"{naming}"
             mol2 = write_mol2(mol, ident, names,
                               "asis" if mol.orig_names else "sorted",
-                              resname=case.get("mol2_resname", "LIG"))
+                              resname=case.get("mol2_resname", lig_res))
             ref = reference(mol, names)
             if ref is None:
                 rec.event("complex:reference-run-aborts")
@@ -1277,7 +1311,8 @@ def check_complex_cell(case, rec):
                 rec.violation(f"C16/exception/{type(exc).__name__}/complex",
                               {"ligand": lig, "message": str(exc)[:200]}, one)
                 continue
-            text = complex_pdb(mol, names, extras)
+            text = complex_pdb(mol, names, extras, lig_res=lig_res,
+                               copies=copies)
             captured = []
 
             def grab(args, kwargs):
@@ -1289,7 +1324,8 @@ def check_complex_cell(case, rec):
                                  files={"lig.mol2": mol2})
             rec.res["evals"] += 1
             rec.res["nontrivial"].append(
-                f"complex:{ff}:{lig}:{naming}:{'+'.join(extras) or 'none'}")
+                f"complex:{ff}:{lig}:{naming}:{'+'.join(extras) or 'none'}"
+                f":{lig_res}x{copies}:{case.get('mol2_resname', '=')}")
             detail = {"ligand": lig, "naming": naming, "extras": extras,
                       "ff": ff, "ligand_atom_names": names}
             # which non-ligand atoms carry parameters they do not carry in
@@ -1298,7 +1334,7 @@ def check_complex_cell(case, rec):
             bm = captured[-1] if captured else None
             if bm is not None:
                 for a in bm.atoms:
-                    if a.res_name == "LIG" and a.res_seq == LIG_SEQ:
+                    if a.res_name == lig_res and a.res_seq in lig_seqs:
                         continue
                     key = (a.res_name, a.chain_id, a.res_seq, a.name)
                     if key not in ref_bm:
@@ -1306,7 +1342,7 @@ def check_complex_cell(case, rec):
                     rq, rr = ref_bm[key]
                     same = (_feq(a.ffcharge, rq) and _feq(a.radius, rr))
                     if not same:
-                        polluted.setdefault(_kind(a.res_name), []).append(
+                        polluted.setdefault(_kind(a.res_name, lig_res), []).append(
                             [list(map(str, key)), [rq, rr],
                              [a.ffcharge, a.radius]])
             for kind, items in sorted(polluted.items()):
@@ -1334,7 +1370,7 @@ def check_complex_cell(case, rec):
                 continue
             rec.event("complex:completed")
             listed = sum(1 for a in (r.missed or [])
-                         if a.res_name == "LIG" and a.res_seq == LIG_SEQ)
+                         if a.res_name == lig_res and a.res_seq in lig_seqs)
             if listed:
                 rec.event("complex:written-ligand-atoms-also-listed-as-"
                           "unassigned-in-header", listed)
@@ -1342,13 +1378,14 @@ def check_complex_cell(case, rec):
             by_name = {}
             others = {}
             for a in atoms:
-                if a["res_name"] == "LIG" and a["res_seq"] == LIG_SEQ:
-                    by_name.setdefault(a["name"], []).append(a)
+                if a["res_name"] == lig_res and a["res_seq"] in lig_seqs:
+                    by_name.setdefault((a["res_seq"], a["name"]),
+                                       []).append(a)
                 else:
                     others.setdefault(_pqr_key(a), []).append(
                         (a["qs"], a["rs"]))
-            for i in range(mol.n):
-                got = by_name.pop(names[i], [])
+            for seq, i in itertools.product(sorted(lig_seqs), range(mol.n)):
+                got = by_name.pop((seq, names[i]), [])
                 if len(got) == 0:
                     rec.violation("C16/complex/ligand-atom-not-written",
                                   dict(detail, atom=names[i]), one)
@@ -1371,18 +1408,18 @@ def check_complex_cell(case, rec):
                             f"C16/complex/radius/{mol.types[i]}",
                             dict(detail, atom=names[i], written=a["radius"],
                                  documented=exp), one)
-            for nm, got in by_name.items():
+            for (_seq, nm), got in by_name.items():
                 rec.violation(
                     "C16/complex/unknown-atom-in-ligand-residue",
                     dict(detail, atom=nm), one)
-            rec.event("complex:ligand-atoms-checked", mol.n)
+            rec.event("complex:ligand-atoms-checked", mol.n * copies)
             # non-ligand lines: identical multiset to the reference run
             for key in sorted(set(others) | set(ref_lines)):
                 a, b = sorted(others.get(key, [])), sorted(
                     ref_lines.get(key, []))
                 if a == b:
                     continue
-                kind = _kind(key[0])
+                kind = _kind(key[0], lig_res)
                 if len(a) > len(b) and not b:
                     what = f"unparameterised-{kind}-atom-written"
                 elif len(a) > len(b):
@@ -1557,6 +1594,23 @@ def enumerate_cases(tier, seed):
                       "ligands": ["methanol", "acetate"],
                       "namings": ["private", "elem-index"],
                       "mol2_resname": "UNK"})
+    # residue names ending in a digit, several copies of the ligand, and a
+    # ligand named like (and with the atom names of) a hetero group the
+    # force field has its own entry for
+    for ex in _subsets(("W1", "XYZ", "XYQ")):
+        cases.append({"mode": "complex", "ff": "AMBER", "extras": ex,
+                      "ligands": ["methanol", "acetate"],
+                      "namings": ["water-like", "elem-index"],
+                      "lig_resname": "PG4"})
+        cases.append({"mode": "complex", "ff": "AMBER", "extras": ex,
+                      "ligands": ["methanol", "methylammonium"],
+                      "namings": ["private", "elem-index"], "copies": 2})
+    for ff, entry in FF_HETERO_ENTRIES:
+        for ex in ([], ["W1"], ["W1", "XYQ"]):
+            cases.append({"mode": "complex", "ff": ff, "extras": ex,
+                          "ligands": ["methanol", "acetate"],
+                          "namings": [f"ff-entry:{entry}", "private"],
+                          "lig_resname": entry})
     if tier != "quick":
         ligs = list(COMPLEX_LIGANDS)
         for ff in ("AMBER", "PARSE", "CHARMM"):
